@@ -54,37 +54,64 @@ Example C14_example_names :
   /\ gen_auto_add_extension "x" Ezarr = "x.zarr".
 Proof. vm_compute. repeat split; reflexivity. Qed.
 
-(* float data (for instance an integer variable that merging padded with missing cells) is never written with an
-   integer dtype remembered from an earlier load -- by the rule regenerated from save_ds -- so missing cells stay
-   missing; packed variables (scale_factor / add_offset) keep their on-disk dtype *)
-Theorem C14_float_not_written_as_integer : forall e remembered,
-  e <> Ezarr ->
-  written_kind gen_dtype_rule e remembered KFloat false <> KInt
-  /\ written_kind gen_dtype_rule e remembered KFloat false <> KUInt.
+(* whatever numeric dtype xarray remembers from an earlier load, an (unpacked) integer / unsigned / float variable is
+   written with a dtype that can hold its data safely -- by the rule regenerated from save_ds: missing cells that
+   merging padded into an integer variable stay missing, a coordinate that has grown past int32 keeps its values *)
+Definition numeric (d : dtype) : Prop :=
+  (fst d = KInt \/ fst d = KUInt \/ fst d = KFloat) /\ (snd d = 8 \/ snd d = 16 \/ snd d = 32 \/ snd d = 64).
+Theorem C14_written_dtype_holds_the_data : forall e remembered data,
+  e <> Ezarr -> numeric data -> (forall k, remembered = Some k -> numeric k) ->
+  safe_cast data (written_dtype gen_dtype_rule e remembered data false) = true.
 Proof.
-  intros e remembered He. rewrite bridge_dtype_rule.
-  destruct e; try congruence; destruct remembered as [[]|]; cbn; split; discriminate.
+  intros e remembered data He Hd Hr. rewrite bridge_dtype_rule.
+  assert (Hself : safe_cast data data = true).
+  { destruct data as [k b], Hd as [[Hk|[Hk|Hk]] [Hb|[Hb|[Hb|Hb]]]]; cbn in Hk, Hb; subst; reflexivity. }
+  destruct remembered as [k|].
+  - specialize (Hr k eq_refl).
+    destruct e; try congruence; cbn [written_dtype]; try exact Hself;
+      unfold forgets, model_dtype_rule; cbn [dr_disk dr_data dr_unsafe_only dr_unless_packed];
+      destruct (safe_cast data k) eqn:E;
+      destruct data as [kd bd], k as [kk bk], Hd as [[Hk|[Hk|Hk]] _], Hr as [[Hq|[Hq|Hq]] _];
+      cbn in Hk, Hq; subst; cbn; rewrite ?E; cbn; try exact Hself; try exact E.
+  - destruct e; try congruence; exact Hself.
 Qed.
 
-(* ... and nothing else is touched: a remembered dtype of the data's own kind, or of a packed variable, is kept *)
+(* in particular float data is never written with an integer dtype (defect D30) *)
+Theorem C14_float_not_written_as_integer : forall e remembered b,
+  e <> Ezarr -> (b = 32 \/ b = 64) -> (forall k, remembered = Some k -> numeric k) ->
+  fst (written_dtype gen_dtype_rule e remembered (KFloat, b) false) = KFloat.
+Proof.
+  intros e remembered b He Hb Hr.
+  assert (Hn : numeric (KFloat, b)).
+  { split; [right; right; reflexivity|cbn; destruct Hb as [->| ->]; auto]. }
+  pose proof (C14_written_dtype_holds_the_data e remembered (KFloat, b) He Hn Hr) as H.
+  destruct (written_dtype gen_dtype_rule e remembered (KFloat, b) false) as [[] w]; cbn in H |- *;
+    try discriminate; reflexivity.
+Qed.
+
+(* ... and a remembered dtype that CAN hold the data, or belongs to a packed variable, is kept *)
 Theorem C14_other_dtypes_kept : forall e k data packed,
-  e <> Ejoblib ->
-  (data <> KFloat \/ packed = true \/ (k <> KInt /\ k <> KUInt)) ->
-  written_kind gen_dtype_rule e (Some k) data packed = k.
+  e <> Ejoblib -> (safe_cast data k = true \/ packed = true) ->
+  written_dtype gen_dtype_rule e (Some k) data packed = k.
 Proof.
   intros e k data packed He H. rewrite bridge_dtype_rule.
-  destruct e; try congruence; destruct k, data, packed; cbn; try reflexivity;
-    destruct H as [H|[H|[H1 H2]]]; congruence.
+  destruct e; try congruence; cbn [written_dtype]; try reflexivity;
+    unfold forgets, model_dtype_rule; cbn [dr_disk dr_data dr_unsafe_only dr_unless_packed];
+    destruct H as [H| ->]; rewrite ?H; cbn; rewrite ?andb_false_r; reflexivity.
 Qed.
 
-(* the behaviour before the repair (no rule): the record of defect D30 *)
-Lemma C14_float_not_written_as_integer_refuted_old :
-  written_kind (mk_dtype_rule [] [] true) Eh5netcdf (Some KInt) KFloat false = KInt.
-Proof. reflexivity. Qed.
+(* the behaviour before the repairs: no rule at all (D30: float data written as int64), and the first repair's rule,
+   which looked at int -> float only (a coordinate grown past int32 still wrapped around) *)
+Lemma C14_written_dtype_refuted_old :
+  written_dtype (mk_dtype_rule [] [] true true) Eh5netcdf (Some (KInt, 64)) (KFloat, 64) false = (KInt, 64)
+  /\ written_dtype (mk_dtype_rule [KInt; KUInt] [KFloat] false true) Eh5netcdf (Some (KInt, 32)) (KInt, 64) false
+     = (KInt, 32).
+Proof. split; reflexivity. Qed.
 
 Theorem C14_engine_forwarded : gen_engine_forwarded_everywhere = true.
 Proof. exact bridge_engine_forwarded. Qed.
 
+Print Assumptions C14_written_dtype_holds_the_data.
 Print Assumptions C14_float_not_written_as_integer.
 Print Assumptions C14_other_dtypes_kept.
 Print Assumptions C14_names_agree.
